@@ -25,10 +25,12 @@ Section AnyNum.
 
   Lemma push_no_panic (L : Loop K) (p : V) : forall s, loop_push L p <> Panic s.
   Proof.
-    intros s. unfold loop_push, loop_push_gen.
+    intros s. unfold loop_push, loop_push_gen, loop_push_gen2. cbn [negb andb].
     pose proof (valid_to_add_no_panic L p) as Hv. destruct (valid_to_add L p) as [u| |s']; cbn [rbind]; try discriminate; [|intros _; exact (Hv s' eq_refl)].
     destruct (Nat.leb 2 (llen L)).
-    - pose proof (is_collinear_no_panic (vnth (verts L) (llen L - 2)) (vnth (verts L) (llen L - 1)) p) as Hc.
+    - destruct (vcompare _ p).
+      { cbn [rbind]. match goal with |- context [if ?b then loop_set_normal ?x else _] => destruct b; [apply set_normal_no_panic | discriminate] end. }
+      pose proof (is_collinear_no_panic (vnth (verts L) (llen L - 2)) (vnth (verts L) (llen L - 1)) p) as Hc.
       destruct (is_collinear _ _ p) as [c| |s']; cbn [rbind]; try discriminate; [|intros _; exact (Hc s' eq_refl)].
       match goal with |- context [if ?b then loop_set_normal ?x else _] => destruct b; [apply set_normal_no_panic | discriminate] end.
     - cbn [rbind]. match goal with |- context [if ?b then loop_set_normal ?x else _] => destruct b; [apply set_normal_no_panic | discriminate] end.
@@ -72,50 +74,48 @@ Section AnyNum.
 
   (** push on a closed loop is refused *)
   Theorem push_on_closed_refused (L : Loop K) (p : V) : lclosed L = true -> loop_push L p = Err 30%N.
-  Proof. intros H. unfold loop_push, loop_push_gen, valid_to_add. rewrite H. reflexivity. Qed.
+  Proof. intros H. unfold loop_push, loop_push_gen, loop_push_gen2, valid_to_add. rewrite H. reflexivity. Qed.
 
   (** acceptance is exactly: open, coplanar (when the plane is known), no proper crossing with an
-      earlier non-adjacent edge, and the last two vertices and the new point not all coincident *)
+      earlier non-adjacent edge, and -- unless the point goes straight back to the last-but-one vertex
+      (the spike is then popped, fix df28df6) -- the last two vertices and the new point not all coincident *)
   Definition accepts (L : Loop K) (p : V) : bool :=
     negb (lclosed L) &&
     (if negb (vis_zero (lnormal L)) then match loop_is_coplanar L p with Ok b => b | _ => false end else true) &&
     (if Nat.leb 3 (llen L) then negb (crosses_any (seg_new (vnth (verts L) (llen L - 1)) p) (verts L) (llen L - 2)) else true) &&
-    (if Nat.leb 2 (llen L) then is_ok (is_collinear (vnth (verts L) (llen L - 2)) (vnth (verts L) (llen L - 1)) p) else true).
+    (if Nat.leb 2 (llen L) then vcompare (vnth (verts L) (llen L - 2)) p ||
+                                is_ok (is_collinear (vnth (verts L) (llen L - 2)) (vnth (verts L) (llen L - 1)) p) else true).
+  Lemma set_normal_tail_ok (L : Loop K) (vs : list V) :
+    is_ok (if Nat.eqb (length vs) 3 then loop_set_normal (set_verts L vs) else Ok (set_verts L vs)) = true.
+  Proof.
+    destruct (Nat.eqb (length vs) 3) eqn:El; [|reflexivity]. apply Nat.eqb_eq in El.
+    unfold loop_set_normal. cbn [verts set_verts]. destruct vs as [|x [|y [|z w]]]; cbn [length] in El; try discriminate; reflexivity.
+  Qed.
+  Lemma push_tail_accepts (L : Loop K) (p : V) :
+    is_ok (do vs <- (if Nat.leb 2 (llen L) then
+                if vcompare (vnth (verts L) (llen L - 2)) p then Ok (removelast (verts L)) else
+                do col <- is_collinear (vnth (verts L) (llen L - 2)) (vnth (verts L) (llen L - 1)) p;
+                Ok (if col then replace_last (verts L) p else verts L ++ [p])
+              else Ok (verts L ++ [p]));
+           if Nat.eqb (length vs) 3 then loop_set_normal (set_verts L vs) else Ok (set_verts L vs)) =
+    (if Nat.leb 2 (llen L) then vcompare (vnth (verts L) (llen L - 2)) p ||
+                                is_ok (is_collinear (vnth (verts L) (llen L - 2)) (vnth (verts L) (llen L - 1)) p) else true).
+  Proof.
+    destruct (Nat.leb 2 (llen L)).
+    - destruct (vcompare _ p); cbn [orb rbind]; [apply set_normal_tail_ok|].
+      destruct (is_collinear _ _ p) as [c| |]; cbn [rbind is_ok]; try reflexivity. apply set_normal_tail_ok.
+    - cbn [rbind]. apply set_normal_tail_ok.
+  Qed.
   Theorem push_accepts (L : Loop K) (p : V) : is_ok (loop_push L p) = accepts L p.
   Proof.
-    unfold loop_push, loop_push_gen, valid_to_add, accepts. destruct (lclosed L); [reflexivity|]. cbn [negb andb].
+    unfold loop_push, loop_push_gen, loop_push_gen2, accepts. cbn [negb andb]. rewrite <- push_tail_accepts.
+    unfold valid_to_add. destruct (lclosed L); [reflexivity|]. cbn [negb andb].
     destruct (negb (vis_zero (lnormal L))).
     - destruct (loop_is_coplanar L p) as [c| |]; cbn [rbind]; try reflexivity. destruct c; cbn [negb andb]; [|reflexivity].
-      destruct (Nat.leb 3 (llen L)) eqn:E3.
-      + destruct (crosses_any _ _ _); cbn [rbind negb andb]; [reflexivity|].
-        assert (E2 : Nat.leb 2 (llen L) = true) by (apply Nat.leb_le; apply Nat.leb_le in E3; lia). rewrite E2.
-        destruct (is_collinear _ _ p) as [c| |]; cbn [rbind is_ok]; try reflexivity.
-        match goal with |- context [if ?b then loop_set_normal ?x else _] => destruct b eqn:El; [|reflexivity] end.
-        unfold loop_set_normal. cbn [verts set_verts]. apply Nat.eqb_eq in El.
-        match goal with |- context [match ?l with _ => _ end] => destruct l as [|x [|y [|z w]]]; cbn [length] in El; try discriminate; reflexivity end.
-      + cbn [rbind]. destruct (Nat.leb 2 (llen L)).
-        * destruct (is_collinear _ _ p) as [c| |]; cbn [rbind is_ok]; try reflexivity.
-          match goal with |- context [if ?b then loop_set_normal ?x else _] => destruct b eqn:El; [|reflexivity] end.
-          unfold loop_set_normal. cbn [verts set_verts]. apply Nat.eqb_eq in El.
-          match goal with |- context [match ?l with _ => _ end] => destruct l as [|x [|y [|z w]]]; cbn [length] in El; try discriminate; reflexivity end.
-        * cbn [rbind]. match goal with |- context [if ?b then loop_set_normal ?x else _] => destruct b eqn:El; [|reflexivity] end.
-          unfold loop_set_normal. cbn [verts set_verts]. apply Nat.eqb_eq in El.
-          match goal with |- context [match ?l with _ => _ end] => destruct l as [|x [|y [|z w]]]; cbn [length] in El; try discriminate; reflexivity end.
-    - cbn [rbind negb andb]. destruct (Nat.leb 3 (llen L)) eqn:E3.
-      + destruct (crosses_any _ _ _); cbn [rbind negb andb]; [reflexivity|].
-        assert (E2 : Nat.leb 2 (llen L) = true) by (apply Nat.leb_le; apply Nat.leb_le in E3; lia). rewrite E2.
-        destruct (is_collinear _ _ p) as [c| |]; cbn [rbind is_ok]; try reflexivity.
-        match goal with |- context [if ?b then loop_set_normal ?x else _] => destruct b eqn:El; [|reflexivity] end.
-        unfold loop_set_normal. cbn [verts set_verts]. apply Nat.eqb_eq in El.
-        match goal with |- context [match ?l with _ => _ end] => destruct l as [|x [|y [|z w]]]; cbn [length] in El; try discriminate; reflexivity end.
-      + cbn [rbind]. destruct (Nat.leb 2 (llen L)).
-        * destruct (is_collinear _ _ p) as [c| |]; cbn [rbind is_ok]; try reflexivity.
-          match goal with |- context [if ?b then loop_set_normal ?x else _] => destruct b eqn:El; [|reflexivity] end.
-          unfold loop_set_normal. cbn [verts set_verts]. apply Nat.eqb_eq in El.
-          match goal with |- context [match ?l with _ => _ end] => destruct l as [|x [|y [|z w]]]; cbn [length] in El; try discriminate; reflexivity end.
-        * cbn [rbind]. match goal with |- context [if ?b then loop_set_normal ?x else _] => destruct b eqn:El; [|reflexivity] end.
-          unfold loop_set_normal. cbn [verts set_verts]. apply Nat.eqb_eq in El.
-          match goal with |- context [match ?l with _ => _ end] => destruct l as [|x [|y [|z w]]]; cbn [length] in El; try discriminate; reflexivity end.
+      destruct (Nat.leb 3 (llen L)); cbn [rbind]; [|reflexivity].
+      destruct (crosses_any _ _ _); cbn [rbind negb andb]; reflexivity.
+    - cbn [rbind negb andb]. destruct (Nat.leb 3 (llen L)); cbn [rbind]; [|reflexivity].
+      destruct (crosses_any _ _ _); cbn [rbind negb andb]; reflexivity.
   Qed.
 
   (** ** (d) a successfully closed loop is closed, has at least three vertices, and its two wrap-around
